@@ -27,11 +27,14 @@ def use_repo():
     return root
 
 
-class HarnessError(Exception):
-    """A fault of the verification machinery itself -- never a VIOLATION."""
+class HarnessError(BaseException):
+    """A fault of the verification machinery itself -- never a VIOLATION.
+
+    Derives from BaseException (like the two below) so that an `except Exception` inside the code under test
+    cannot swallow it."""
 
 
-class Violation(Exception):
+class Violation(BaseException):
     """The property is broken on this trace.  clause is the oracle clause id."""
 
     def __init__(self, clause, message, detail=None):
@@ -41,5 +44,5 @@ class Violation(Exception):
         self.detail = detail or {}
 
 
-class Inconclusive(Exception):
+class Inconclusive(BaseException):
     """A run that exhausted its step/draw budget: counted, never an alarm."""
